@@ -46,6 +46,20 @@ Theorem C09_commands_go_to_origin : forall cfg send_ok cs fl rep k fl' es n,
 Proof. intros cfg send_ok cs. exact (exec_cmds_effects cfg (fun _ _ => []) send_ok cs). Qed.
 Print Assumptions C09_commands_go_to_origin.
 
+(* over whole histories: while the runtime handles a message from address a, everything it transmits
+   (installs, change-program and update-fields messages, sends that fail) is addressed to a; [origin_ok]
+   walks the interleaved trace remembering whose message is being handled *)
+From Portus Require Import TraceFacts OriginFacts.
+Theorem C09_every_reply_goes_to_the_sender : forall cfg user send_ok h st' t,
+  trace cfg user send_ok init_state h = Some (st', t) -> origin_ok None t.
+Proof. exact every_reply_goes_to_the_sender. Qed.
+Print Assumptions C09_every_reply_goes_to_the_sender.
+
+Theorem C09_step_replies_to_sender : forall cfg user send_ok st a m st' es,
+  step cfg user send_ok st a m = SOk st' es -> handles_ok st -> Forall (to_addr a) es.
+Proof. exact step_replies_to_sender. Qed.
+Print Assumptions C09_step_replies_to_sender.
+
 (* The model keys flows by datapath address, then flow id.  That the code does so too is not
    something running it can establish (two addresses that collide under a lossy key are not found
    by testing), so this obligation is regenerated from the text of run_inner on every run by
